@@ -78,6 +78,7 @@ def check_sequence_files(ctx):
         rl = [c for c in calls_in(fi.node) if m.resolve_call(fi, c) == 'gambit.util.io.read_lines']
         rep.add('A1', fi.site(rl[0] if rl else lp), 'empty lines of the list file are skipped (no phantom row)', len(rl) == 1 and is_const(get_kw(rl[0], 'skip_empty'), True), expected='skip_empty=True', found=[u(c) for c in rl], stmt='listfile lines')
     none_ret = [s for s in ret_tuple(fi) if s is not r]
+    rep.account_returns('A1', fi, [r] + none_ret[:1], '(ids, files) pair')
     rep.add('A1', fi.site(none_ret[0] if none_ret else r), 'no input channel: (None, None)', len(none_ret) == 1 and u(none_ret[0].value) == '(None, None)', expected='return None, None', found=[u(x.value) for x in none_ret], stmt='no channel')
     # from_paths body
     fp = m.func('gambit.seq.SequenceFile.from_paths')
@@ -228,6 +229,7 @@ def check_query_paths(ctx):
         oke = isinstance(e, ast.Call) and m.resolve_call(fq, e) == 'gambit.query.QueryInput' and isinstance(tg, ast.Tuple) and [u(a) for a in e.args] == [u(x) for x in tg.elts]
         rep.add('A3', fq.site(zipped), 'each input carries its own label and its own file', oke, expected='QueryInput(label, file) for label, file in zip_strict(file_labels, files)', found=u(zipped), stmt='input pairing')
     rep.add('A3', fq.site(qcall), 'the same database is queried and the caller parameters are forwarded', u(qcall.args[0]) == dbp and u(qcall.args[2]) == fq.params()[2], expected=f'query({dbp}, sigs, params, ...)', found=u(qcall)[:60], stmt='query operands')
+    rep.account_returns('A3', fq, [s for s in stmts_in(fq.node.body) if isinstance(s, ast.Return) and s.value is qcall], 'results object')
     fz = m.func('gambit.util.misc.zip_strict')
     rep.functions.add(fz.qualname)
     zr = [s for s in stmts_in(fz.node.body) if isinstance(s, ast.Return)]
@@ -283,6 +285,7 @@ def check_query(ctx):
     dflt = [s for s in stmts_in(fi.node.body) if isinstance(s, ast.Assign) and u(s.targets[0]) == 'inputs' and ('is', 'None', 'inputs') in path_atoms(gm[s])]
     okd = len(dflt) == 1 and isinstance(dflt[0].value, ast.ListComp) and u(dflt[0].value.generators[0].iter) == f'range(len({qp}))'
     rep.add('A4', fi.site(dflt[0] if dflt else None), 'without inputs, one numbered label per query', okd, expected=f'[QueryInput(str(i + 1)) for i in range(len({qp}))]', found=[u(d.value) for d in dflt], stmt='default labels')
+    rep.account_returns('A4', fi, [fi.node.body[-1]] if isinstance(fi.node.body[-1], ast.Return) else [], 'results object')
     ql = [s for s in fi.node.body if isinstance(s, ast.Assign) and u(s.targets[0]) == qp]
     rep.add('A4', fi.site(ql[0] if ql else None), 'the query sequence is materialised once, order kept', len(ql) == 1 and u(ql[0].value) == f'list({qp})', expected=f'{qp} = list({qp})', found=[u(x.value) for x in ql], stmt='queries list')
     ret = fi.node.body[-1]
